@@ -156,8 +156,20 @@ def kani_native_build():
 
 def kani_operands(harness, extra_args):
     """re-run one failing harness with concrete playback and extract the operand bytes"""
-    p = subprocess.run(["cargo", "kani", "--target-dir", os.path.join(BUILD_T, "kani"), "-Z", "stubbing", "-Z", "concrete-playback", "--concrete-playback=print", "--output-format", "terse", "--harness", harness] + extra_args,
-                       cwd=KANI_DIR, env=ENV, stdout=subprocess.PIPE, stderr=subprocess.STDOUT, text=True, timeout=3000)
+    cap_s = int(os.environ.get("KANI_PLAYBACK_SECS", "600"))
+    cap_kb = int(os.environ.get("KANI_MAX_KB", str(24 * 1024 * 1024)))
+    args = ["cargo", "kani", "--target-dir", os.path.join(BUILD_T, "kani"), "-Z", "stubbing", "-Z", "concrete-playback", "--concrete-playback=print", "--output-format", "terse", "--harness", harness] + extra_args
+    p = subprocess.Popen(["bash", "-c", f"ulimit -v {cap_kb}; exec \"$@\"", "kani"] + args, cwd=KANI_DIR, env=ENV, stdout=subprocess.PIPE, stderr=subprocess.STDOUT, text=True, start_new_session=True)
+    try:
+        out, _ = p.communicate(timeout=cap_s)
+    except subprocess.TimeoutExpired:
+        try:
+            os.killpg(p.pid, 9)
+        except ProcessLookupError:
+            pass
+        p.communicate()
+        return []
+    p = subprocess.CompletedProcess(args, p.returncode, out, None)
     vecs = re.findall(r"^\s*vec!\[([0-9,\s]*)\],?\s*$", p.stdout, re.M)
     vals = []
     for v in vecs:
@@ -176,8 +188,20 @@ def run_kani(tier):
     args = ["cargo", "kani", "--target-dir", os.path.join(BUILD_T, "kani"), "-Z", "stubbing", "-j", "8", "--output-format", "terse"]
     for h in harnesses:
         args += ["--harness", h]
-    p = subprocess.run(args, cwd=KANI_DIR, env=ENV, stdout=subprocess.PIPE, stderr=subprocess.STDOUT, text=True, timeout=7200)
-    text = p.stdout
+    # own process group, capped in time and address space: a change to the code under test can make
+    # a query explode (CBMC at 18 GB after 50 minutes was observed); that is inconclusive, never a pass
+    cap_s = int(os.environ.get("KANI_MAX_SECS", "1500" if tier == "quick" else "7200"))
+    cap_kb = int(os.environ.get("KANI_MAX_KB", str(24 * 1024 * 1024)))
+    p = subprocess.Popen(["bash", "-c", f"ulimit -v {cap_kb}; exec \"$@\"", "kani"] + args, cwd=KANI_DIR, env=ENV, stdout=subprocess.PIPE, stderr=subprocess.STDOUT, text=True, start_new_session=True)
+    try:
+        text, _ = p.communicate(timeout=cap_s)
+    except subprocess.TimeoutExpired:
+        try:
+            os.killpg(p.pid, 9)
+        except ProcessLookupError:
+            pass
+        p.communicate()
+        return {}, [], [f"kani did not finish within {cap_s} s (KANI_MAX_SECS); harnesses: {' '.join(harnesses)}"], time.time() - t0
     results = {}
     # terse output with -j interleaves; the final summary lists failures by name
     failed = set(re.findall(r"Verification failed for - proofs::(\w+)", text))
